@@ -188,7 +188,7 @@ func GenComp(t *rapid.T) h.Comp {
 var prop = h.Prop[Spec]{
 	ID: "C02", Name: "inplace",
 	Gen: func(t *rapid.T) Spec {
-		s := Spec{Pair: h.GenPair(t, h.GenOpts{KindChange: true, PathOps: true}), Comp: GenComp(t), Commits: 3}
+		s := Spec{Pair: h.GenPair(t, h.GenOpts{KindChange: true, PathOps: true, ConstCap: 16384}), Comp: GenComp(t), Commits: 3}
 		if rapid.IntRange(0, 2).Draw(t, "optimize") == 0 {
 			s.Optimize = true
 			s.Opt = &h.OptParams{Partitions: rapid.IntRange(0, 2).Draw(t, "parts"), Comp: s.Comp}
